@@ -1,1 +1,996 @@
--- C12: property theorems (to be filled in)
+/-
+C12 — property theorems.
+
+Part I: theorems over the *generated* constants (`Gen.table` = the `add_function_mapping` rows of
+common/cpp_functions.py, `Gen.readmeFunctions` = the function list of README.md, `Gen.typePriority`,
+`Gen.binOps`, `Gen.unOps`, `Gen.evalEnv`), each a complete enumeration of a finite table by `decide`;
+re-proved whenever the source changes.
+
+Part II: theorems about the model of name resolution and emission, for *every* table, environment,
+operator table and expression (no bound on size or depth).
+
+Part III: Part II instantiated with the generated constants: the property itself.
+
+Where the full statement is false of the code as it stands, the theorem is `_partial` with an
+explicit decidable hypothesis and a `_counterexample` on a literal sits beside it.
+-/
+import FaxVerif.C12.Proofs
+import FaxVerif.Generated.C12Table
+namespace FaxVerif.C12
+
+/-! ## Part I — the generated tables -/
+
+/-- The translator read every statement that fills the table as data: no `add_function_mapping`
+call with computed arguments, none inside a loop or function, no direct write to
+`functions_to_replace`, the README list and the three dictionaries are literals. -/
+theorem translator_complete : Gen.unrecognised = [] := by decide
+
+/-- Every function the documentation lists is a key of the table. -/
+theorem documented_present : ∀ f ∈ Gen.readmeFunctions, f ∈ keys Gen.table := by decide +kernel
+
+/-- No key is assigned twice, so no row silently overrides another (the table is a `dict`). -/
+theorem keys_nodup : (keys Gen.table).Nodup := by decide +kernel
+
+/-- Every row maps its python name to the C++ function *of that name* (`ln ↦ log`,
+`abs`/`builtins.abs ↦` absolute value, `builtins.pow ↦ pow`): `meaningCpp r.cpp = meaningPy r.py`,
+both defined. -/
+theorem namesake : ∀ r ∈ Gen.table, rowNamesake r = true := by decide +kernel
+
+/-- Every row pulls in the header that declares its C++ function. -/
+theorem header : ∀ r ∈ Gen.table, rowHeader r = true := by decide +kernel
+
+/-- Every row declares the result `double`. -/
+theorem return_double : ∀ r ∈ Gen.table, rowReturnDouble r = true := by decide +kernel
+
+/-- Every declared result type (and `double`, the type of `/` and `**`) is a key of
+`_type_priority`: `most_accurate_type` never asserts on a math call. -/
+theorem table_arith : TableArith Gen.cfg = true := by decide +kernel
+
+/-- The four together (the row-level Spec the harness also evaluates on the live table). -/
+theorem spec_row : ∀ r ∈ Gen.table, SpecRow Gen.typePriority r = true := by decide +kernel
+
+/-
+FULL STATEMENT (false): ∀ r ∈ Gen.table, rowRetFaithful r — the declared result type is the type
+C++ gives the call.  `std::ilogb` returns `int` and is declared `double`.
+-/
+/-- Except for `ilogb`, the declared result type is the C++ result type of the call on `double`
+arguments. -/
+theorem return_type_faithful_partial : ∀ r ∈ Gen.table, r.cpp ≠ "std::ilogb" → rowRetFaithful r = true := by
+  decide +kernel
+
+theorem return_type_faithful_counterexample :
+    ∃ r ∈ Gen.table, r.py = "ilogb" ∧ rowRetFaithful r = false := by decide +kernel
+
+/-
+FULL STATEMENT (false): ∀ f ∈ Gen.readmeFunctions, the `<cmath>` function it names can be called
+with values.  `remquo(x, y, int*)` has an output parameter; a query cannot supply it.
+-/
+/-- Every documented function except `remquo` takes only by-value parameters. -/
+theorem callable_by_value_partial :
+    ∀ f ∈ Gen.readmeFunctions, f ≠ "remquo" → (meaningPy f).any MathFn.callableByValue = true := by
+  decide +kernel
+
+theorem callable_by_value_counterexample :
+    "remquo" ∈ Gen.readmeFunctions ∧ (meaningPy "remquo").any MathFn.callableByValue = false := by
+  decide +kernel
+
+/-
+FULL STATEMENT (false): ∀ f ∈ Gen.readmeFunctions, acceptedAs Gen.cfg f — a call of the documented
+name, as written in a query, reaches a row that is its namesake.  `round` is a python built-in, so
+the resolver looks for `builtins.round`, which is not a key: the call is left alone and the
+translator then refuses it.
+-/
+/-- Every documented name except `round`, written as a call in a query, is replaced by a row whose
+C++ function is its namesake — through `eval`: `abs` and `pow` reach `builtins.abs`/`builtins.pow`,
+all others their bare key. -/
+theorem documented_accepted_partial :
+    ∀ f ∈ Gen.readmeFunctions, f ≠ "round" → acceptedAs Gen.cfg f = true := by decide +kernel
+
+theorem documented_accepted_counterexample :
+    "round" ∈ Gen.readmeFunctions ∧ acceptedAs Gen.cfg "round" = false ∧
+    (tr Gen.cfg (.call "round" [.leaf "x" "double"])).toOption = none := by decide +kernel
+
+/-- Every row is reached by the call of its own bare key, except the rows `abs`, `pow`, `round`
+(dead: python's `eval` finds the built-in first) and the two `builtins.` rows (reached by `abs`,
+`pow`). -/
+theorem rows_reached_partial :
+    ∀ r ∈ Gen.table, r.py ∉ ["abs", "pow", "round", "builtins.abs", "builtins.pow"] →
+      (findKnown Gen.table Gen.evalEnv r.py).toOption = some (some r) := by decide +kernel
+
+/-- The operator tables give `+ - * /` and unary `+ -` their C++ symbols, `**` has no entry (it is
+special-cased to `std::pow`), `int` ranks below `double`. -/
+theorem cfg_ok : CfgOK Gen.cfg = true := by decide +kernel
+
+/-! ## Part II — resolution and emission, for every table and every expression -/
+
+/-- **Resolution rule.** A name python's `eval` does not find reaches the row of its bare key; a
+name bound to something of module `m` reaches the row `m.<name>` and *never* its bare row; a name
+bound to an object without `__module__` makes the resolver raise. -/
+theorem resolver_spec (t : List Row) (env : Env) (id : String) :
+    (env.get id = .unbound → findKnown t env id = .ok (lookup t id)) ∧
+    (∀ m, env.get id = .inModule m → findKnown t env id = .ok (lookup t (m ++ "." ++ id))) ∧
+    (env.get id = .noModuleAttr → findKnown t env id = .error (.attributeError id)) := by
+  refine ⟨fun h => ?_, fun m h => ?_, fun h => ?_⟩ <;> simp [findKnown, fncName, h]
+
+/-- A call is replaced iff the resolved key is in the table; the row is a row of the table with
+that key. -/
+theorem replaced_iff (t : List Row) (env : Env) (id k : String) (hk : fncName (env.get id) id = .ok k) :
+    (∃ r, findKnown t env id = .ok (some r)) ↔ k ∈ keys t := by
+  simp only [findKnown, hk, Except.ok.injEq]
+  rw [← lookup_isSome_iff]
+  cases lookup t k <;> simp
+
+theorem findKnown_mem {t : List Row} {env : Env} {id : String} {r : Row}
+    (h : findKnown t env id = .ok (some r)) : r ∈ t := by
+  unfold findKnown at h
+  cases hk : fncName (env.get id) id with
+  | error e => simp [hk] at h
+  | ok k =>
+    simp only [hk, Except.ok.injEq] at h
+    exact (lookup_mem h).1
+
+/-- **Call emission** (`visit_function_ast`): a call of a name that resolves to row `r`, whose
+arguments translate to `ts`, becomes the C++ call `r.cpp(ts…)` of the declared type `r.ret`, and
+the row's include files are added after those of the arguments; its text is
+`r.cpp ++ "(" ++ ",".join(texts) ++ ")"`. -/
+theorem call_emitted (c : Cfg) (f : String) (args : List PExpr) (r : Row) (ts : List CExpr) (incs : List String)
+    (hf : findKnown c.table c.env f = .ok (some r)) (ha : TrList c args ts incs) :
+    tr c (.call f args) = .ok ⟨.call r.cpp ts, r.ret, mergeIncs incs r.includes⟩ ∧
+    render (.call r.cpp ts) = r.cpp ++ "(" ++ renderArgs ts ++ ")" :=
+  ⟨(tr_iff _ _ _).2 (Tr.call ha hf), by simp [render]⟩
+
+mutual
+/-- **Headers.** Whatever is translated successfully, the include files of the row of every
+function called anywhere in it are among the include files added. -/
+theorem includes_of_called (c : Cfg) : ∀ (e : PExpr) (v : CVal), Tr c e v →
+    ∀ f ∈ calledNames e, ∀ r, findKnown c.table c.env f = .ok (some r) → ∀ i ∈ r.includes, i ∈ v.incs
+  | .leaf _ _, _, _, f, hf, _, _, _, _ => by simp [calledNames] at hf
+  | .call g args, v, h, f, hf, r, hr, i, hi => by
+    obtain ⟨r0, ts, incs, hg, hl, rfl⟩ := Tr.call_inv h
+    simp only [calledNames, List.mem_cons] at hf
+    rcases hf with rfl | hf
+    · rw [hg] at hr
+      cases hr
+      exact mem_mergeIncs.2 (Or.inr hi)
+    · exact mem_mergeIncs.2 (Or.inl (includes_of_calledList c args ts incs hl f hf r hr i hi))
+  | .bin _ l r', v, h, f, hf, r, hr, i, hi => by
+    obtain ⟨lv, rv, hl, hr', hsub⟩ := Tr.bin_inv h
+    simp only [calledNames, List.mem_append] at hf
+    rcases hf with hf | hf
+    · exact hsub i (Or.inl (includes_of_called c l lv hl f hf r hr i hi))
+    · exact hsub i (Or.inr (includes_of_called c r' rv hr' f hf r hr i hi))
+  | .un _ e, v, h, f, hf, r, hr, i, hi => by
+    obtain ⟨ev, he, hincs⟩ := Tr.un_inv h
+    simp only [calledNames] at hf
+    rw [hincs]
+    exact includes_of_called c e ev he f hf r hr i hi
+theorem includes_of_calledList (c : Cfg) : ∀ (es : List PExpr) (ts : List CExpr) (incs : List String),
+    TrList c es ts incs →
+    ∀ f ∈ calledNamesList es, ∀ r, findKnown c.table c.env f = .ok (some r) → ∀ i ∈ r.includes, i ∈ incs
+  | [], _, _, _, f, hf, _, _, _, _ => by simp [calledNamesList] at hf
+  | a :: as, ts, incs, h, f, hf, r, hr, i, hi => by
+    obtain ⟨v, ts', incs', ha, hs, _, rfl⟩ := TrList.cons_inv h
+    simp only [calledNamesList, List.mem_append] at hf
+    rcases hf with hf | hf
+    · exact mem_mergeIncs.2 (Or.inl (includes_of_called c a v ha f hf r hr i hi))
+    · exact mem_mergeIncs.2 (Or.inr (includes_of_calledList c as ts' incs' hs f hf r hr i hi))
+end
+
+theorem bestType_ok {prio : List (String × Nat)} {a b : String}
+    (ha : (assoc prio a).isSome) (hb : (assoc prio b).isSome) :
+    ∃ best, bestType prio a b = .ok best ∧ (best = a ∨ best = b) := by
+  unfold bestType
+  cases h1 : assoc prio a with
+  | none => simp [h1] at ha
+  | some pa =>
+    cases h2 : assoc prio b with
+    | none => simp [h2] at hb
+    | some pb =>
+      by_cases hlt : pa < pb
+      · exact ⟨b, by simp [hlt], Or.inr rfl⟩
+      · exact ⟨a, by simp [hlt], Or.inl rfl⟩
+
+mutual
+/-- **Usable inside larger arithmetic.** If every row's declared type is known to
+`most_accurate_type` (`TableArith`, proved of the generated table: `table_arith`), then *every*
+expression built from operands of known type, calls that resolve to a row (with operands of any
+type as direct arguments), the operators of the operator table and `**` is translated — no
+`TypeError`, no assertion — and its type is again one `most_accurate_type` knows. -/
+theorem usable_in_arithmetic (c : Cfg) (hc : TableArith c = true) : ∀ e : PExpr, Accepted c e = true →
+    ∃ v, Tr c e v ∧ (assoc c.prio v.ty).isSome
+  | .leaf t ty, h => by
+    simp only [Accepted] at h
+    exact ⟨_, Tr.leaf c t ty, h⟩
+  | .call f args, h => by
+    simp only [Accepted, Bool.and_eq_true] at h
+    obtain ⟨hargs, hf⟩ := h
+    obtain ⟨ts, incs, hl⟩ := usable_args c hc args hargs
+    cases hk : findKnown c.table c.env f with
+    | error e => simp [hk] at hf
+    | ok o =>
+      cases o with
+      | none => simp [hk] at hf
+      | some r =>
+        refine ⟨_, Tr.call hl hk, ?_⟩
+        have hr := findKnown_mem hk
+        simp only [TableArith, Bool.and_eq_true, List.all_eq_true] at hc
+        exact hc.1 r hr
+  | .bin op l r, h => by
+    simp only [Accepted, Bool.and_eq_true] at h
+    obtain ⟨⟨hop, hl⟩, hr⟩ := h
+    obtain ⟨lv, hlv, hlt⟩ := usable_in_arithmetic c hc l hl
+    obtain ⟨rv, hrv, hrt⟩ := usable_in_arithmetic c hc r hr
+    have hdbl : (assoc c.prio "double").isSome := by
+      simp only [TableArith, Bool.and_eq_true] at hc
+      exact hc.2
+    cases hs : assoc c.binOps op with
+    | some sym =>
+      obtain ⟨best, hb, hbest⟩ := bestType_ok hlt hrt
+      refine ⟨_, Tr.bin hlv hrv hs hb, ?_⟩
+      unfold binVal
+      by_cases hd : op = "Div"
+      · by_cases hi : best = "int" <;> simp [hd, hi, hdbl]
+      · simp only [hd, if_false]
+        rcases hbest with rfl | rfl <;> assumption
+    | none =>
+      simp only [hs, Option.isSome_none, Bool.false_or, beq_iff_eq] at hop
+      subst hop
+      exact ⟨_, Tr.pow hlv hrv hs, hdbl⟩
+  | .un op e, h => by
+    simp only [Accepted, Bool.and_eq_true] at h
+    obtain ⟨hop, he⟩ := h
+    obtain ⟨v, hv, ht⟩ := usable_in_arithmetic c hc e he
+    cases hs : assoc c.unOps op with
+    | none => simp [hs] at hop
+    | some sym => exact ⟨_, Tr.un hv hs, ht⟩
+theorem usable_args (c : Cfg) (hc : TableArith c = true) : ∀ es : List PExpr, AcceptedArgs c es = true →
+    ∃ ts incs, TrList c es ts incs
+  | [], _ => ⟨[], [], TrList.nil c⟩
+  | a :: as, h => by
+    simp only [AcceptedArgs, Bool.and_eq_true] at h
+    obtain ⟨ha, has⟩ := h
+    obtain ⟨ts, incs, hl⟩ := usable_args c hc as has
+    have : ∃ v, Tr c a v := by
+      cases a with
+      | leaf t ty => exact ⟨_, Tr.leaf c t ty⟩
+      | call f args => obtain ⟨v, hv, _⟩ := usable_in_arithmetic c hc (.call f args) ha; exact ⟨v, hv⟩
+      | bin op l r => obtain ⟨v, hv, _⟩ := usable_in_arithmetic c hc (.bin op l r) ha; exact ⟨v, hv⟩
+      | un op e => obtain ⟨v, hv, _⟩ := usable_in_arithmetic c hc (.un op e) ha; exact ⟨v, hv⟩
+    obtain ⟨v, hv⟩ := this
+    exact ⟨_, _, TrList.cons hv hl⟩
+end
+
+
+/-! ### the emitted C++ means what the query means -/
+
+theorem scoped_leaf_ty {ty : String} (h : (ty == "int" || ty == "double") = true) : ty = "int" ∨ ty = "double" := by
+  simpa using h
+
+theorem bestType_int_double {c : Cfg} (hc : CfgOK c = true) {a b : String}
+    (ha : a = "int" ∨ a = "double") (hb : b = "int" ∨ b = "double") :
+    bestType c.prio a b = .ok (if a = "int" ∧ b = "int" then "int" else "double") := by
+  simp only [CfgOK, Bool.and_eq_true] at hc
+  obtain ⟨_, hp⟩ := hc
+  cases hi : assoc c.prio "int" with
+  | none => simp [hi] at hp
+  | some pi =>
+    cases hd : assoc c.prio "double" with
+    | none => simp [hi, hd] at hp
+    | some pd =>
+      simp only [hi, hd, decide_eq_true_eq] at hp
+      rcases ha with rfl | rfl <;> rcases hb with rfl | rfl <;> simp [bestType, hi, hd, hp] <;> omega
+
+theorem cfgOK_ops {c : Cfg} (hc : CfgOK c = true) :
+    assoc c.binOps "Add" = some "+" ∧ assoc c.binOps "Sub" = some "-" ∧ assoc c.binOps "Mult" = some "*" ∧
+    assoc c.binOps "Div" = some "/" ∧ assoc c.binOps "Pow" = none ∧
+    assoc c.unOps "USub" = some "-" ∧ assoc c.unOps "UAdd" = some "+" := by
+  simp only [CfgOK, Bool.and_eq_true, beq_iff_eq] at hc
+  obtain ⟨⟨⟨⟨⟨⟨⟨h1, h2⟩, h3⟩, h4⟩, h5⟩, h6⟩, h7⟩, _⟩ := hc
+  exact ⟨h1, h2, h3, h4, h5, h6, h7⟩
+
+theorem ctype_of_ty {ty : String} (h : ty = "int" ∨ ty = "double") :
+    (ty = "int" → CT.ofName ty = .int) ∧ (ty = "double" → CT.ofName ty = .dbl) :=
+  ⟨fun h => by subst h; rfl, fun h => by subst h; rfl⟩
+
+theorem ctype_bin (s : String) (l r : CExpr) : (CExpr.bin s l r).ctype = CT.join l.ctype r.ctype := by
+  simp [CExpr.ctype]
+
+theorem ctype_cast (ty : String) (e : CExpr) : (CExpr.cast ty e).ctype = CT.ofName ty := by
+  simp [CExpr.ctype]
+
+/-- the statement proved of one expression -/
+def Faithful (c : Cfg) (e : PExpr) (v : CVal) : Prop :=
+  Tr c e v ∧ csym v.term = psym e ∧ CT.ofName v.ty = v.term.ctype ∧ (v.ty = "int" ∨ v.ty = "double")
+
+/-- one non-division arithmetic operator -/
+theorem faithful_bin_plain {c : Cfg} (hc : CfgOK c = true) {op sym : String} {l r : PExpr} {lv rv : CVal}
+    (hs : assoc c.binOps op = some sym) (hnd : op ≠ "Div") (hnp : op ≠ "Pow")
+    (hmean : ∀ a b : CT, cArith sym a b = pArith op)
+    (hl : Faithful c l lv) (hr : Faithful c r rv) : ∃ v, Faithful c (.bin op l r) v := by
+  obtain ⟨hl1, hl2, hl3, hl4⟩ := hl
+  obtain ⟨hr1, hr2, hr3, hr4⟩ := hr
+  have hb := bestType_int_double hc hl4 hr4
+  refine ⟨_, Tr.bin hl1 hr1 hs hb, ?_, ?_, ?_⟩
+  · simp only [binVal, hnd, if_false, csym, psym, hnp, hmean, hl2, hr2]
+  · simp only [binVal, hnd, if_false, CExpr.ctype, ← hl3, ← hr3]
+    rcases hl4 with h | h <;> rcases hr4 with h' | h' <;> simp [h, h', CT.ofName, CT.join]
+  · simp only [binVal, hnd, if_false]
+    by_cases h : lv.ty = "int" ∧ rv.ty = "int" <;> simp [h]
+
+mutual
+/-- **Namesake, for every expression in scope** (the core of `computes_namesake_partial`). -/
+theorem scoped_faithful (c : Cfg) (hc : CfgOK c = true) : ∀ e : PExpr, Scoped c e = true → ∃ v, Faithful c e v
+  | .leaf t ty, h => by
+    simp only [Scoped] at h
+    have hty := scoped_leaf_ty h
+    exact ⟨_, Tr.leaf c t ty, by simp [csym, psym], by simp [CExpr.ctype], hty⟩
+  | .call f args, h => by
+    simp only [Scoped, Bool.and_eq_true] at h
+    obtain ⟨hargs, hcall⟩ := h
+    obtain ⟨ts, incs, hl, hsyms, htys⟩ := scoped_args c hc args hargs
+    unfold callOk at hcall
+    cases hk : findKnown c.table c.env f with
+    | error e => simp [hk] at hcall
+    | ok o =>
+      cases o with
+      | none => simp [hk] at hcall
+      | some r =>
+        simp only [hk, Bool.and_eq_true, beq_iff_eq, Bool.or_eq_true] at hcall
+        obtain ⟨⟨⟨⟨hsome, hmean⟩, hret⟩, hnum⟩, _⟩ := hcall
+        refine ⟨_, Tr.call hl hk, ?_, ?_, ?_⟩
+        · cases hm : meaningPy f with
+          | none => simp [hm] at hsome
+          | some m =>
+            rw [hm] at hmean
+            simp only [csym, psym, hmean, hm, hsyms]
+        · simp only [CExpr.ctype, htys]
+          exact hret
+        · rcases hnum with h | h
+          · exact Or.inl (CT.ofName_int.1 h)
+          · exact Or.inr (CT.ofName_dbl.1 h)
+  | .bin op l r, h => by
+    simp only [Scoped, Bool.and_eq_true] at h
+    obtain ⟨⟨hop, hl⟩, hr⟩ := h
+    obtain ⟨lv, hlv⟩ := scoped_faithful c hc l hl
+    obtain ⟨rv, hrv⟩ := scoped_faithful c hc r hr
+    obtain ⟨hAdd, hSub, hMul, hDiv, hPow, _, _⟩ := cfgOK_ops hc
+    simp only [arithBin, List.mem_cons, List.mem_nil_iff, or_false, decide_eq_true_eq] at hop
+    rcases hop with rfl | rfl | rfl | rfl | rfl
+    · exact faithful_bin_plain hc hAdd (by decide) (by decide) (fun a b => by simp [cArith, pArith]) hlv hrv
+    · exact faithful_bin_plain hc hSub (by decide) (by decide) (fun a b => by simp [cArith, pArith]) hlv hrv
+    · exact faithful_bin_plain hc hMul (by decide) (by decide) (fun a b => by simp [cArith, pArith]) hlv hrv
+    · -- Div: python's `/` is real division; the cast is emitted exactly when C++ would truncate
+      obtain ⟨hl1, hl2, hl3, hl4⟩ := hlv
+      obtain ⟨hr1, hr2, hr3, hr4⟩ := hrv
+      have hb := bestType_int_double hc hl4 hr4
+      refine ⟨_, Tr.bin hl1 hr1 hDiv hb, ?_, ?_, Or.inr ?_⟩
+      · by_cases hii : lv.ty = "int" ∧ rv.ty = "int"
+        · simp [binVal, hii, csym, psym, CExpr.ctype, cArith, pArith, CT.ofName, hl2, hr2]
+        · have hne : ¬ (lv.term.ctype = .int ∧ rv.term.ctype = .int) := by
+            rw [← hl3, ← hr3, CT.ofName_int, CT.ofName_int]; exact hii
+          simp [binVal, hii, csym, psym, cArith, pArith, hl2, hr2, hne]
+      · have e1 : lv.term.ctype = CT.ofName lv.ty := hl3.symm
+        have e2 : rv.term.ctype = CT.ofName rv.ty := hr3.symm
+        rcases hl4 with h | h <;> rcases hr4 with h' | h' <;>
+          simp [binVal, h, h', ctype_bin, ctype_cast, e1, e2, CT.ofName, CT.join]
+      · by_cases hii : lv.ty = "int" ∧ rv.ty = "int" <;> simp [binVal, hii]
+    · -- Pow: `std::pow(l, r)`
+      obtain ⟨hl1, hl2, _, _⟩ := hlv
+      obtain ⟨hr1, hr2, _, _⟩ := hrv
+      exact ⟨_, Tr.pow hl1 hr1 hPow, by simp [csym, psym, hl2, hr2], by simp [CExpr.ctype, CT.ofName], Or.inr rfl⟩
+  | .un op e, h => by
+    simp only [Scoped, Bool.and_eq_true] at h
+    obtain ⟨hop, he⟩ := h
+    obtain ⟨v, hv1, hv2, hv3, hv4⟩ := scoped_faithful c hc e he
+    obtain ⟨_, _, _, _, _, hNeg, hPos⟩ := cfgOK_ops hc
+    simp only [arithUn, List.mem_cons, List.mem_nil_iff, or_false, decide_eq_true_eq] at hop
+    rcases hop with rfl | rfl
+    · exact ⟨_, Tr.un hv1 hNeg, by simp [csym, psym, cUn, pUn, hv2], by simp [CExpr.ctype, hv3], hv4⟩
+    · exact ⟨_, Tr.un hv1 hPos, by simp [csym, psym, cUn, pUn, hv2], by simp [CExpr.ctype, hv3], hv4⟩
+theorem scoped_args (c : Cfg) (hc : CfgOK c = true) : ∀ es : List PExpr, ScopedArgs c es = true →
+    ∃ ts incs, TrList c es ts incs ∧ csyms ts = psyms es ∧ CExpr.ctypes ts = es.map (argTy c)
+  | [], _ => ⟨[], [], TrList.nil c, by simp [csyms, psyms], by simp [CExpr.ctypes]⟩
+  | a :: as, h => by
+    simp only [ScopedArgs, Bool.and_eq_true] at h
+    obtain ⟨ha, has⟩ := h
+    obtain ⟨ts, incs, hl, hsyms, htys⟩ := scoped_args c hc as has
+    have : ∃ v, Tr c a v ∧ csym v.term = psym a ∧ CT.ofName v.ty = v.term.ctype := by
+      cases a with
+      | leaf t ty => exact ⟨_, Tr.leaf c t ty, by simp [csym, psym], by simp [CExpr.ctype]⟩
+      | call f args => obtain ⟨v, h1, h2, h3, _⟩ := scoped_faithful c hc (.call f args) ha; exact ⟨v, h1, h2, h3⟩
+      | bin op l r => obtain ⟨v, h1, h2, h3, _⟩ := scoped_faithful c hc (.bin op l r) ha; exact ⟨v, h1, h2, h3⟩
+      | un op e => obtain ⟨v, h1, h2, h3, _⟩ := scoped_faithful c hc (.un op e) ha; exact ⟨v, h1, h2, h3⟩
+    obtain ⟨v, hv1, hv2, hv3⟩ := this
+    refine ⟨_, _, TrList.cons hv1 hl, ?_, ?_⟩
+    · simp only [csyms, psyms, hv2, hsyms]
+    · simp only [CExpr.ctypes, List.map_cons, htys, argTy_of_Tr hv1, hv3]
+end
+
+
+/-! ### the refusals -/
+
+theorem findKnown_error {t : List Row} {env : Env} {f : String} {er : TrErr}
+    (h : findKnown t env f = .error er) : er = .attributeError f ∧ env.get f = .noModuleAttr := by
+  unfold findKnown fncName at h
+  cases hb : env.get f with
+  | unbound => simp [hb] at h
+  | inModule m => simp [hb] at h
+  | noModuleAttr => simp only [hb, Except.error.injEq] at h; exact ⟨h.symm, rfl⟩
+
+mutual
+/-- Pass 1 fails only with the `AttributeError` of a called name that python's `eval` binds to an
+object without `__module__`. -/
+theorem resolve_error (c : Cfg) : ∀ (e : PExpr) (er : TrErr), resolve c e = .error er →
+    ∃ f ∈ calledNames e, er = .attributeError f ∧ c.env.get f = .noModuleAttr
+  | .leaf _ _, er, h => by simp [resolve] at h
+  | .call g args, er, h => by
+    unfold resolve at h
+    cases ha : resolveList c args with
+    | error e' =>
+      simp only [ha, Except.error.injEq] at h
+      subst h
+      obtain ⟨f, hf, h1, h2⟩ := resolveList_error c args _ ha
+      exact ⟨f, by simp [calledNames, hf], h1, h2⟩
+    | ok rs =>
+      simp only [ha] at h
+      cases hk : findKnown c.table c.env g with
+      | error e' =>
+        simp only [hk, Except.error.injEq] at h
+        subst h
+        obtain ⟨h1, h2⟩ := findKnown_error hk
+        exact ⟨g, by simp [calledNames], h1, h2⟩
+      | ok o => cases o <;> simp [hk] at h
+  | .bin op l r, er, h => by
+    unfold resolve at h
+    cases hl : resolve c l with
+    | error e' =>
+      simp only [hl, Except.error.injEq] at h
+      subst h
+      obtain ⟨f, hf, h1, h2⟩ := resolve_error c l _ hl
+      exact ⟨f, by simp [calledNames, hf], h1, h2⟩
+    | ok l' =>
+      simp only [hl] at h
+      cases hr : resolve c r with
+      | error e' =>
+        simp only [hr, Except.error.injEq] at h
+        subst h
+        obtain ⟨f, hf, h1, h2⟩ := resolve_error c r _ hr
+        exact ⟨f, by simp [calledNames, hf], h1, h2⟩
+      | ok r' => simp [hr] at h
+  | .un op e, er, h => by
+    unfold resolve at h
+    cases he : resolve c e with
+    | error e' =>
+      simp only [he, Except.error.injEq] at h
+      subst h
+      obtain ⟨f, hf, h1, h2⟩ := resolve_error c e _ he
+      exact ⟨f, by simp [calledNames, hf], h1, h2⟩
+    | ok e' => simp [he] at h
+theorem resolveList_error (c : Cfg) : ∀ (es : List PExpr) (er : TrErr), resolveList c es = .error er →
+    ∃ f ∈ calledNamesList es, er = .attributeError f ∧ c.env.get f = .noModuleAttr
+  | [], er, h => by simp [resolveList] at h
+  | a :: as, er, h => by
+    unfold resolveList at h
+    cases ha : resolve c a with
+    | error e' =>
+      simp only [ha, Except.error.injEq] at h
+      subst h
+      obtain ⟨f, hf, h1, h2⟩ := resolve_error c a _ ha
+      exact ⟨f, by simp [calledNamesList, hf], h1, h2⟩
+    | ok a' =>
+      simp only [ha] at h
+      cases hs : resolveList c as with
+      | error e' =>
+        simp only [hs, Except.error.injEq] at h
+        subst h
+        obtain ⟨f, hf, h1, h2⟩ := resolveList_error c as _ hs
+        exact ⟨f, by simp [calledNamesList, hf], h1, h2⟩
+      | ok as' => simp [hs] at h
+end
+
+mutual
+/-- Pass 2 says "Do not know how to call `f`" only for a call of `f` that pass 1 left alone. -/
+theorem unknownCall_src (c : Cfg) : ∀ (e : PExpr) (q : RExpr) (f : String), resolve c e = .ok q →
+    emit c q = .error (.unknownCall f) → f ∈ calledNames e ∧ findKnown c.table c.env f = .ok none
+  | .leaf _ _, q, f, h1, h2 => by
+    simp only [resolve, Except.ok.injEq] at h1
+    subst h1
+    simp [emit] at h2
+  | .call g args, q, f, h1, h2 => by
+    unfold resolve at h1
+    cases ha : resolveList c args with
+    | error e' => simp [ha] at h1
+    | ok rs =>
+      simp only [ha] at h1
+      cases hk : findKnown c.table c.env g with
+      | error e' => simp [hk] at h1
+      | ok o =>
+        cases o with
+        | some r =>
+          simp only [hk, Except.ok.injEq] at h1
+          subst h1
+          unfold emit at h2
+          cases he : emitList c rs with
+          | error e' =>
+            simp only [he, Except.error.injEq] at h2
+            subst h2
+            obtain ⟨hf, hn⟩ := unknownCall_srcList c args rs f ha he
+            exact ⟨by simp [calledNames, hf], hn⟩
+          | ok p => simp [he] at h2
+        | none =>
+          simp only [hk, Except.ok.injEq] at h1
+          subst h1
+          unfold emit at h2
+          cases he : emitList c rs with
+          | error e' =>
+            simp only [he, Except.error.injEq] at h2
+            subst h2
+            obtain ⟨hf, hn⟩ := unknownCall_srcList c args rs f ha he
+            exact ⟨by simp [calledNames, hf], hn⟩
+          | ok p =>
+            simp only [he, Except.error.injEq, TrErr.unknownCall.injEq] at h2
+            subst h2
+            exact ⟨by simp [calledNames], hk⟩
+  | .bin op l r, q, f, h1, h2 => by
+    unfold resolve at h1
+    cases hl : resolve c l with
+    | error e' => simp [hl] at h1
+    | ok l' =>
+      simp only [hl] at h1
+      cases hr : resolve c r with
+      | error e' => simp [hr] at h1
+      | ok r' =>
+        simp only [hr, Except.ok.injEq] at h1
+        subst h1
+        have left : ∀ {x}, emit c l' = .error x → x = .unknownCall f → f ∈ calledNames (.bin op l r) ∧ findKnown c.table c.env f = .ok none := by
+          intro x hx hxe
+          subst hxe
+          obtain ⟨hf, hn⟩ := unknownCall_src c l l' f hl hx
+          exact ⟨by simp [calledNames, hf], hn⟩
+        have right : ∀ {x}, emit c r' = .error x → x = .unknownCall f → f ∈ calledNames (.bin op l r) ∧ findKnown c.table c.env f = .ok none := by
+          intro x hx hxe
+          subst hxe
+          obtain ⟨hf, hn⟩ := unknownCall_src c r r' f hr hx
+          exact ⟨by simp [calledNames, hf], hn⟩
+        unfold emit at h2
+        cases hs : assoc c.binOps op with
+        | none =>
+          simp only [hs] at h2
+          by_cases hp : op = "Pow"
+          · simp only [hp, if_true] at h2
+            cases h3 : emit c l' with
+            | error x => simp only [h3, Except.error.injEq] at h2; exact left h3 h2
+            | ok lv =>
+              simp only [h3] at h2
+              cases h4 : emit c r' with
+              | error x => simp only [h4, Except.error.injEq] at h2; exact right h4 h2
+              | ok rv => simp [h4] at h2
+          · simp [hp] at h2
+        | some sym =>
+          simp only [hs] at h2
+          cases h3 : emit c l' with
+          | error x => simp only [h3, Except.error.injEq] at h2; exact left h3 h2
+          | ok lv =>
+            simp only [h3] at h2
+            cases h4 : emit c r' with
+            | error x => simp only [h4, Except.error.injEq] at h2; exact right h4 h2
+            | ok rv =>
+              simp only [h4] at h2
+              unfold bestType at h2
+              cases hpl : assoc c.prio lv.ty with
+              | none => simp [hpl] at h2
+              | some pl =>
+                cases hpr : assoc c.prio rv.ty with
+                | none => simp [hpl, hpr] at h2
+                | some pr =>
+                  simp only [hpl, hpr] at h2
+                  by_cases hd : op = "Div"
+                  · by_cases hi : (if pl < pr then rv.ty else lv.ty) = "int" <;> simp [hd, hi] at h2
+                  · simp [hd] at h2
+  | .un op e, q, f, h1, h2 => by
+    unfold resolve at h1
+    cases he : resolve c e with
+    | error e' => simp [he] at h1
+    | ok e' =>
+      simp only [he, Except.ok.injEq] at h1
+      subst h1
+      unfold emit at h2
+      cases hs : assoc c.unOps op with
+      | none => simp [hs] at h2
+      | some sym =>
+        simp only [hs] at h2
+        cases h3 : emit c e' with
+        | error x =>
+          simp only [h3, Except.error.injEq] at h2
+          subst h2
+          obtain ⟨hf, hn⟩ := unknownCall_src c e e' f he h3
+          exact ⟨by simp [calledNames, hf], hn⟩
+        | ok v => simp [h3] at h2
+theorem unknownCall_srcList (c : Cfg) : ∀ (es : List PExpr) (rs : List RExpr) (f : String), resolveList c es = .ok rs →
+    emitList c rs = .error (.unknownCall f) → f ∈ calledNamesList es ∧ findKnown c.table c.env f = .ok none
+  | [], rs, f, h1, h2 => by
+    simp only [resolveList, Except.ok.injEq] at h1
+    subst h1
+    simp [emitList] at h2
+  | a :: as, rs, f, h1, h2 => by
+    unfold resolveList at h1
+    cases ha : resolve c a with
+    | error e' => simp [ha] at h1
+    | ok a' =>
+      simp only [ha] at h1
+      cases hs : resolveList c as with
+      | error e' => simp [hs] at h1
+      | ok as' =>
+        simp only [hs, Except.ok.injEq] at h1
+        subst h1
+        unfold emitList at h2
+        cases h3 : emit c a' with
+        | error x =>
+          simp only [h3, Except.error.injEq] at h2
+          subst h2
+          obtain ⟨hf, hn⟩ := unknownCall_src c a a' f ha h3
+          exact ⟨by simp [calledNamesList, hf], hn⟩
+        | ok v =>
+          simp only [h3] at h2
+          cases h4 : emitList c as' with
+          | error x =>
+            simp only [h4, Except.error.injEq] at h2
+            subst h2
+            obtain ⟨hf, hn⟩ := unknownCall_srcList c as as' f hs h4
+            exact ⟨by simp [calledNamesList, hf], hn⟩
+          | ok p => simp [h4] at h2
+end
+
+def TrErr.isAttr : TrErr → Bool
+  | .attributeError _ => true
+  | _ => false
+
+mutual
+/-- pass 2 never raises `AttributeError` -/
+theorem emit_noattr (c : Cfg) : ∀ (q : RExpr) (er : TrErr), emit c q = .error er → er.isAttr = false
+  | .leaf _ _, er, h => by simp [emit] at h
+  | .fcall r args, er, h => by
+    unfold emit at h
+    cases he : emitList c args with
+    | error x => simp only [he, Except.error.injEq] at h; subst h; exact emitList_noattr c args x he
+    | ok p => simp [he] at h
+  | .ucall g args, er, h => by
+    unfold emit at h
+    cases he : emitList c args with
+    | error x => simp only [he, Except.error.injEq] at h; subst h; exact emitList_noattr c args x he
+    | ok p => simp only [he, Except.error.injEq] at h; subst h; rfl
+  | .bin op l r, er, h => by
+    unfold emit at h
+    cases hs : assoc c.binOps op with
+    | none =>
+      simp only [hs] at h
+      by_cases hp : op = "Pow"
+      · simp only [hp, if_true] at h
+        cases h3 : emit c l with
+        | error x => simp only [h3, Except.error.injEq] at h; subst h; exact emit_noattr c l x h3
+        | ok lv =>
+          simp only [h3] at h
+          cases h4 : emit c r with
+          | error x => simp only [h4, Except.error.injEq] at h; subst h; exact emit_noattr c r x h4
+          | ok rv => simp [h4] at h
+      · simp only [hp, if_false, Except.error.injEq] at h; subst h; rfl
+    | some sym =>
+      simp only [hs] at h
+      cases h3 : emit c l with
+      | error x => simp only [h3, Except.error.injEq] at h; subst h; exact emit_noattr c l x h3
+      | ok lv =>
+        simp only [h3] at h
+        cases h4 : emit c r with
+        | error x => simp only [h4, Except.error.injEq] at h; subst h; exact emit_noattr c r x h4
+        | ok rv =>
+          simp only [h4] at h
+          unfold bestType at h
+          cases hpl : assoc c.prio lv.ty with
+          | none => simp only [hpl, Except.error.injEq] at h; subst h; rfl
+          | some pl =>
+            cases hpr : assoc c.prio rv.ty with
+            | none => simp only [hpl, hpr, Except.error.injEq] at h; subst h; rfl
+            | some pr =>
+              simp only [hpl, hpr] at h
+              by_cases hd : op = "Div"
+              · by_cases hi : (if pl < pr then rv.ty else lv.ty) = "int" <;> simp [hd, hi] at h
+              · simp [hd] at h
+  | .un op e, er, h => by
+    unfold emit at h
+    cases hs : assoc c.unOps op with
+    | none => simp only [hs, Except.error.injEq] at h; subst h; rfl
+    | some sym =>
+      simp only [hs] at h
+      cases h3 : emit c e with
+      | error x => simp only [h3, Except.error.injEq] at h; subst h; exact emit_noattr c e x h3
+      | ok v => simp [h3] at h
+theorem emitList_noattr (c : Cfg) : ∀ (qs : List RExpr) (er : TrErr), emitList c qs = .error er → er.isAttr = false
+  | [], er, h => by simp [emitList] at h
+  | a :: as, er, h => by
+    unfold emitList at h
+    cases h3 : emit c a with
+    | error x => simp only [h3, Except.error.injEq] at h; subst h; exact emit_noattr c a x h3
+    | ok v =>
+      simp only [h3] at h
+      cases h4 : emitList c as with
+      | error x => simp only [h4, Except.error.injEq] at h; subst h; exact emitList_noattr c as x h4
+      | ok p => simp [h4] at h
+end
+
+/-- **What is refused.** The translation fails with "Do not know how to call `f`" only if `f` is
+called in the expression and its resolved key is not in the table; it fails with `AttributeError`
+only for a called name bound to an object without `__module__`. -/
+theorem refused_only_unresolved (c : Cfg) (e : PExpr) (f : String) :
+    (tr c e = .error (.unknownCall f) → f ∈ calledNames e ∧ findKnown c.table c.env f = .ok none) ∧
+    (tr c e = .error (.attributeError f) → f ∈ calledNames e ∧ c.env.get f = .noModuleAttr) := by
+  unfold tr
+  cases h : resolve c e with
+  | error er =>
+    obtain ⟨g, hg, h1, h2⟩ := resolve_error c e er h
+    subst h1
+    constructor
+    · intro h'; simp at h'
+    · intro h'
+      simp only [Except.error.injEq, TrErr.attributeError.injEq] at h'
+      subst h'
+      exact ⟨hg, h2⟩
+  | ok q =>
+    constructor
+    · intro h'; exact unknownCall_src c e q f h h'
+    · intro h'
+      have := emit_noattr c q _ h'
+      simp [TrErr.isAttr] at this
+
+
+/-! ## Part III — the property, on the generated constants -/
+
+mutual
+theorem scoped_calls (c : Cfg) : ∀ e : PExpr, Scoped c e = true → ∀ f ∈ calledNames e,
+    ∃ r, findKnown c.table c.env f = .ok (some r) ∧ (meaningPy f).isSome ∧ meaningCpp r.cpp = meaningPy f ∧ byValue f = true
+  | .leaf _ _, _, f, hf => by simp [calledNames] at hf
+  | .call g args, h, f, hf => by
+    simp only [Scoped, Bool.and_eq_true] at h
+    obtain ⟨hargs, hcall⟩ := h
+    simp only [calledNames, List.mem_cons] at hf
+    rcases hf with rfl | hf
+    · unfold callOk at hcall
+      cases hk : findKnown c.table c.env f with
+      | error e => simp [hk] at hcall
+      | ok o =>
+        cases o with
+        | none => simp [hk] at hcall
+        | some r =>
+          simp only [hk, Bool.and_eq_true, beq_iff_eq] at hcall
+          exact ⟨r, rfl, hcall.1.1.1.1, hcall.1.1.1.2, hcall.2⟩
+    · exact scoped_callsList c args hargs f hf
+  | .bin _ l r, h, f, hf => by
+    simp only [Scoped, Bool.and_eq_true] at h
+    simp only [calledNames, List.mem_append] at hf
+    rcases hf with hf | hf
+    · exact scoped_calls c l h.1.2 f hf
+    · exact scoped_calls c r h.2 f hf
+  | .un _ e, h, f, hf => by
+    simp only [Scoped, Bool.and_eq_true] at h
+    simp only [calledNames] at hf
+    exact scoped_calls c e h.2 f hf
+theorem scoped_callsList (c : Cfg) : ∀ es : List PExpr, ScopedArgs c es = true → ∀ f ∈ calledNamesList es,
+    ∃ r, findKnown c.table c.env f = .ok (some r) ∧ (meaningPy f).isSome ∧ meaningCpp r.cpp = meaningPy f ∧ byValue f = true
+  | [], _, f, hf => by simp [calledNamesList] at hf
+  | a :: as, h, f, hf => by
+    simp only [ScopedArgs, Bool.and_eq_true] at h
+    simp only [calledNamesList, List.mem_append] at hf
+    rcases hf with hf | hf
+    · cases a with
+      | leaf t ty => simp [calledNames] at hf
+      | call g args => exact scoped_calls c (.call g args) h.1 f hf
+      | bin op l r => exact scoped_calls c (.bin op l r) h.1 f hf
+      | un op e => exact scoped_calls c (.un op e) h.1 f hf
+    · exact scoped_callsList c as h.2 f hf
+end
+
+/-
+FULL STATEMENT (false as it stands): for every documented expression `e` (`Documented
+Gen.readmeFunctions e`: numeric operands, calls of documented functions, `+ - * / **`, unary `+ -`)
+the translator accepts `e`, the emitted C++ means what `e` means with every function read by its
+documented name, the needed headers are included and the result has an arithmetic type:
+    ∀ e, SpecTerm Gen.readmeFunctions e (tr Gen.cfg e) = true.
+Counterexamples below: `round(x)`, `remquo(x, y, 0)`, `ilogb(x)/2`, `abs(n)/2` with `n : int`.
+-/
+/-- **C12, on the model, for every expression in scope** (no bound on size or nesting): the query
+is accepted; the C++ expression emitted *denotes the same value as the query under every
+interpretation of the `<cmath>` meanings and of arithmetic* — each function is called by the C++
+name that is the namesake of the name written in the query, `/` is real division also between
+integers, every operand is evaluated in the position it was written; the type the translator
+records is the type the C++ compiler gives the expression.
+
+Scope (`Scoped Gen.cfg e`, decidable): operands of type `int`/`double`; operators `+ - * / **`,
+unary `+ -`; every call resolves to a row that is the namesake of the written name and whose
+declared result type is the C++ result type for the argument types at hand.  By
+`documented_plain_partial` and `abs_scope` that is: every documented function except `round`
+(defect: refused), `remquo` (defect: needs an `int*`), `ilogb` (defect: returns `int`, declared
+`double`) and `abs` applied to integers only (defect: `std::abs(int)` is `int`, declared `double`).  `float` operands are outside
+the abstraction (single-precision overloads), not a known defect. -/
+theorem computes_namesake_partial : ∀ e : PExpr, Scoped Gen.cfg e = true →
+    ∃ v, tr Gen.cfg e = .ok v ∧ csym v.term = psym e ∧ CT.ofName v.ty = v.term.ctype ∧
+      (v.ty = "int" ∨ v.ty = "double") ∧
+      ∀ (α : Type) (I : Interp α), Sym.eval I (csym v.term) = Sym.eval I (psym e) := by
+  intro e h
+  obtain ⟨v, h1, h2, h3, h4⟩ := scoped_faithful Gen.cfg cfg_ok e h
+  exact ⟨v, (tr_iff _ _ _).2 h1, h2, h3, h4, fun α I => by rw [h2]⟩
+
+/-- The same, as the decidable Spec the harness evaluates on the real translator's output: inside
+the scope the model's result satisfies `SpecTerm` (accepted, same meaning, headers, arithmetic type). -/
+theorem spec_partial : ∀ e : PExpr, Scoped Gen.cfg e = true →
+    SpecTerm Gen.readmeFunctions e (tr Gen.cfg e) = true := by
+  intro e h
+  obtain ⟨v, h1, h2, _, h4⟩ := scoped_faithful Gen.cfg cfg_ok e h
+  have htr := (tr_iff _ _ _).2 h1
+  unfold SpecTerm
+  rw [htr]
+  simp only [Bool.or_eq_true, Bool.not_eq_true']
+  right
+  unfold SpecTermOk
+  simp only [Bool.and_eq_true]
+  refine ⟨⟨⟨(Sym.beq_iff _ _).2 h2, ?_⟩, ?_⟩, ?_⟩
+  · simp only [neededHeaders, List.all_eq_true, List.mem_filterMap, decide_eq_true_eq]
+    rintro hd ⟨f, hf, hm⟩
+    obtain ⟨r, hk, hsome, hmean, _⟩ := scoped_calls Gen.cfg e h f hf
+    cases hmf : meaningPy f with
+    | none => simp [hmf] at hsome
+    | some m =>
+      simp only [hmf, Option.map_some, Option.some.injEq] at hm
+      have hr : r ∈ Gen.table := findKnown_mem hk
+      have hh := header r hr
+      unfold rowHeader at hh
+      rw [hmean, hmf] at hh
+      simp only [List.contains_eq_mem, decide_eq_true_eq] at hh
+      subst hm
+      exact includes_of_called Gen.cfg e v h1 f hf r hk _ hh
+  · rcases h4 with h4 | h4 <;> simp [h4, numericTypes]
+  · simp only [List.all_eq_true]
+    intro f hf
+    exact (scoped_calls Gen.cfg e h f hf).choose_spec.2.2.2
+
+/-- a row that is the namesake of `f`, declared `double`, and not one of the two C++ functions
+whose result type is not `double` -/
+def plainRow (c : Cfg) (f : String) : Bool :=
+  match findKnown c.table c.env f with
+  | .ok (some r) =>
+    (meaningPy f).isSome && meaningCpp r.cpp == meaningPy f && r.ret == "double" &&
+      r.cpp != "std::abs" && r.cpp != "std::ilogb" && byValue f
+  | _ => false
+
+theorem callOk_of_plainRow {c : Cfg} {f : String} (h : plainRow c f = true) (tys : List CT) :
+    callOk c f tys = true := by
+  unfold plainRow at h
+  unfold callOk
+  cases hk : findKnown c.table c.env f with
+  | error e => simp [hk] at h
+  | ok o =>
+    cases o with
+    | none => simp [hk] at h
+    | some r =>
+      simp only [hk, Bool.and_eq_true, beq_iff_eq, bne_iff_ne, ne_eq] at h
+      obtain ⟨⟨⟨⟨⟨h1, h2⟩, h3⟩, h4⟩, h5⟩, h6⟩ := h
+      simp [h1, h2, h3, cppRet, h4, h5, h6, CT.ofName]
+
+/-- **The scope, per function.** Every documented function other than `round`, `ilogb`, `abs`, `remquo`
+satisfies the call condition of `Scoped` for *all* argument types … -/
+theorem documented_plain_partial :
+    ∀ f ∈ Gen.readmeFunctions, f ∉ ["round", "ilogb", "abs", "remquo"] → plainRow Gen.cfg f = true := by
+  decide +kernel
+
+theorem documented_scoped_partial (f : String) (hf : f ∈ Gen.readmeFunctions)
+    (hx : f ∉ ["round", "ilogb", "abs", "remquo"]) (tys : List CT) : callOk Gen.cfg f tys = true :=
+  callOk_of_plainRow (documented_plain_partial f hf hx) tys
+
+/-- … and `abs` satisfies it exactly when not all of its arguments are integers. -/
+theorem abs_scope (tys : List CT) :
+    callOk Gen.cfg "abs" tys = (tys.isEmpty || !tys.all (· == .int)) := by
+  have fact : (match findKnown Gen.cfg.table Gen.cfg.env "abs" with
+      | .ok (some r) => r.cpp == "std::abs" && r.ret == "double" && meaningCpp r.cpp == meaningPy "abs"
+      | _ => false) = true := by decide +kernel
+  unfold callOk
+  cases hk : findKnown Gen.cfg.table Gen.cfg.env "abs" with
+  | error e => simp [hk] at fact
+  | ok o =>
+    cases o with
+    | none => simp [hk] at fact
+    | some r =>
+      simp only [hk, Bool.and_eq_true, beq_iff_eq] at fact
+      obtain ⟨⟨h1, h2⟩, h3⟩ := fact
+      have hm : (meaningPy "abs").isSome = true := by decide
+      have hv : byValue "abs" = true := by decide
+      have h3' : meaningCpp "std::abs" = meaningPy "abs" := by decide
+      simp only [hm, hv, h3', h2, h1, cppRet, CT.ofName, Bool.true_and, Bool.and_true, beq_self_eq_true]
+      cases tys with
+      | nil => simp
+      | cons a as =>
+        by_cases hall : (a :: as).all (· == CT.int) = true
+        · simp [hall]
+        · simp [hall]
+
+/-- A documented expression without `round` is never refused with "Do not know how to call", and
+no documented name makes the resolver raise. -/
+theorem documented_never_refused_partial (e : PExpr) (f : String) (hf : f ∈ Gen.readmeFunctions) :
+    (tr Gen.cfg e = .error (.unknownCall f) → f = "round") ∧
+    tr Gen.cfg e ≠ .error (.attributeError f) := by
+  constructor
+  · intro h
+    obtain ⟨_, hn⟩ := (refused_only_unresolved Gen.cfg e f).1 h
+    by_cases hr : f = "round"
+    · exact hr
+    · have := documented_accepted_partial f hf hr
+      unfold acceptedAs at this
+      simp only [Gen.cfg] at hn
+      simp [Gen.cfg, hn] at this
+  · intro h
+    obtain ⟨_, hn⟩ := (refused_only_unresolved Gen.cfg e f).2 h
+    have all : ∀ g ∈ Gen.readmeFunctions, Gen.evalEnv.get g ≠ .noModuleAttr := by decide +kernel
+    exact all f hf hn
+
+/-! ### counterexamples: where the full statement is false of the code -/
+
+/-- `round(x)`: documented, refused ("Do not know how to call 'round'"). -/
+theorem computes_namesake_counterexample_round :
+    Documented Gen.readmeFunctions (.call "round" [.leaf "x" "double"]) = true ∧
+    SpecTerm Gen.readmeFunctions (.call "round" [.leaf "x" "double"])
+      (tr Gen.cfg (.call "round" [.leaf "x" "double"])) = false := by decide +kernel
+
+/-- `ilogb(x)/2`: accepted, but `std::ilogb` returns `int` while the row declares `double`, so no
+cast is emitted and C++ divides integers: the emitted `(std::ilogb(x)/2)` means `idiv`, the query
+means real division. -/
+theorem computes_namesake_counterexample_ilogb :
+    Documented Gen.readmeFunctions (.bin "Div" (.call "ilogb" [.leaf "x" "double"]) (.leaf "2" "int")) = true ∧
+    SpecTerm Gen.readmeFunctions (.bin "Div" (.call "ilogb" [.leaf "x" "double"]) (.leaf "2" "int"))
+      (tr Gen.cfg (.bin "Div" (.call "ilogb" [.leaf "x" "double"]) (.leaf "2" "int"))) = false := by
+  decide +kernel
+
+/-- `abs(n)/2` with `n : int`: `std::abs(int)` is `int`, the row declares `double`: integer
+division again. -/
+theorem computes_namesake_counterexample_abs_int :
+    Documented Gen.readmeFunctions (.bin "Div" (.call "abs" [.leaf "n" "int"]) (.leaf "2" "int")) = true ∧
+    SpecTerm Gen.readmeFunctions (.bin "Div" (.call "abs" [.leaf "n" "int"]) (.leaf "2" "int"))
+      (tr Gen.cfg (.bin "Div" (.call "abs" [.leaf "n" "int"]) (.leaf "2" "int"))) = false := by
+  decide +kernel
+
+def errOf : Except TrErr CVal → Option TrErr
+  | .error e => some e
+  | .ok _ => none
+
+/-- `remquo(x, y, 0)`: the only way to write the third argument is a value; `std::remquo` wants an
+`int*` (with the literal `0` the C++ even compiles — and writes through a null pointer). -/
+theorem computes_namesake_counterexample_remquo :
+    Documented Gen.readmeFunctions (.call "remquo" [.leaf "x" "double", .leaf "y" "double", .leaf "0" "int"]) = true ∧
+    SpecTerm Gen.readmeFunctions (.call "remquo" [.leaf "x" "double", .leaf "y" "double", .leaf "0" "int"])
+      (tr Gen.cfg (.call "remquo" [.leaf "x" "double", .leaf "y" "double", .leaf "0" "int"])) = false := by
+  decide +kernel
+
+/-! ### non-vacuity: the hypotheses are satisfiable by the inputs the property is about -/
+
+-- `sin(x)*2 + 1`
+example : Scoped Gen.cfg (.bin "Add" (.bin "Mult" (.call "sin" [.leaf "x" "double"]) (.leaf "2" "int")) (.leaf "1" "int")) = true := by
+  decide +kernel
+-- `1/2 + abs(y)`, `pow(x, 2)/3`, `-hypot(x, y) ** ldexp(x, 3)`
+example : Scoped Gen.cfg (.bin "Add" (.bin "Div" (.leaf "1" "int") (.leaf "2" "int")) (.call "abs" [.leaf "y" "double"])) = true := by
+  decide +kernel
+example : Scoped Gen.cfg (.bin "Div" (.call "pow" [.leaf "x" "double", .leaf "2" "int"]) (.leaf "3" "int")) = true := by
+  decide +kernel
+example : Scoped Gen.cfg (.un "USub" (.bin "Pow" (.call "hypot" [.leaf "x" "double", .leaf "y" "double"])
+    (.call "ldexp" [.leaf "x" "double", .leaf "3" "int"]))) = true := by decide +kernel
+-- `nan("")` with its string argument, nested calls
+example : Scoped Gen.cfg (.call "fmax" [.call "nan" [.leaf "\"\"" "string"], .call "sin" [.call "cos" [.leaf "x" "double"]]]) = true := by
+  decide +kernel
+-- the model's text for `sin(x)*2+1`
+example : (tr Gen.cfg (.bin "Add" (.bin "Mult" (.call "sin" [.leaf "x" "double"]) (.leaf "2" "int")) (.leaf "1" "int"))).toOption.map
+    (fun v => (render v.term, v.ty, v.incs)) = some ("((std::sin(x)*2)+1)", "double", ["cmath"]) := by decide +kernel
+-- `Accepted` covers more than `Scoped`: float operands, `%`, `not`, ilogb
+example : Accepted Gen.cfg (.bin "Mod" (.call "ilogb" [.leaf "x" "float"]) (.un "Not" (.leaf "2" "int"))) = true := by
+  decide +kernel
+-- the refusals are real: an unknown name, a module-less binding, a string in arithmetic
+example : errOf (tr Gen.cfg (.call "frexp" [.leaf "x" "double"])) = some (.unknownCall "frexp") := by decide +kernel
+example : errOf (tr Gen.cfg (.call "ast" [.leaf "x" "double"])) = some (.attributeError "ast") := by decide +kernel
+example : errOf (tr Gen.cfg (.bin "Add" (.leaf "\"a\"" "string") (.leaf "1" "int"))) = some (.unknownType "string") := by
+  decide +kernel
+
+end FaxVerif.C12
